@@ -157,6 +157,7 @@ type Chain struct {
 	low      map[int]bool // endorsors believed to be below the endorsement
 	Spare    []Acct // extra master candidates that governance txs may add
 	poor     Acct   // an account without VET / VTHO
+	gen      *genesis.Genesis
 }
 
 func newAcct(r *hx.Rand) Acct {
@@ -177,7 +178,11 @@ func Configure() {
 	}
 	configured = true
 	zero := uint32(0)
-	thor.SetConfig(thor.Config{BlockInterval: Interval, EpochLength: 6, HayabusaTP: &zero})
+	// short epochs / staking periods / eviction threshold: PoS housekeeping (renewals, evictions of validators that missed
+	// their slots, exits) really changes the leader group inside a 24-block chain
+	thor.SetConfig(thor.Config{BlockInterval: Interval, EpochLength: 6, HayabusaTP: &zero,
+		ValidatorEvictionThreshold: 4, EvictionCheckInterval: 6,
+		LowStakingPeriod: 6, MediumStakingPeriod: 12, HighStakingPeriod: 12, CooldownPeriod: 6})
 }
 
 func bigE18(n uint64) *big.Int { return new(big.Int).Mul(new(big.Int).SetUint64(n), big.NewInt(1e18)) }
@@ -236,6 +241,7 @@ func New(spec *Spec) (*Chain, error) {
 	if err != nil {
 		return nil, err
 	}
+	c.gen = g
 	c.DB = muxdb.NewMem()
 	c.Stater = state.NewStater(c.DB)
 	b0, _, _, err := g.Build(c.Stater)
